@@ -95,7 +95,7 @@ func (f *Frame) callFn(st *State, r *Term, callee *ssa.Function, bindings []Val,
 	ct := eng.contractFor(target)
 	if ct != nil && ct.Pure && !ct.Inline && f.top().fn != target {
 		// preconditions are still checked by the ordinary contract path below when there are any
-		if len(ct.Requires) == 0 {
+		if len(ct.Requires) == 0 && len(ct.Ensures) == 0 {
 			if v, ok := f.pureCall(st, r, target, tmap, ct, args, pos); ok {
 				return v
 			}
